@@ -130,6 +130,10 @@ func (r *run) body(ctx context.Context, v int) error {
 	r.executed[v] = true
 	r.mu.Unlock()
 	stops, _ := r.c.classify(f)
+	if r.c.Construct == "Generate" && f.Kind == "eof" {
+		// the regular end of a generator: ends this worker only
+		stops = false
+	}
 	if stops && r.failedAt.CompareAndSwap(0, r.clock.Add(1)) {
 		r.failG.Store(int64(g))
 		r.failItem.Store(int64(v))
